@@ -120,24 +120,47 @@ func ruleLogBoundsVerbatim(r *Run) {
 	}
 	good := true
 	n := 0
-	check := func(host *ssa.Function, what string, v ssa.Value, field string, at token.Pos) {
+	grp := funcGroup(sl)
+	var check func(host *ssa.Function, what string, v ssa.Value, field string, at token.Pos, depth int)
+	check = func(host *ssa.Function, what string, v ssa.Value, field string, at token.Pos, depth int) {
 		leaves, impure := verbatimTrace(v)
 		for _, im := range impure {
 			good = false
 			o.Fail(r.pos(at), "%s is computed: %s", what, describe(im, 0))
 		}
 		for _, l := range leaves {
-			if !isFieldOfParam(l, field, host) {
-				good = false
-				o.Fail(r.pos(at), "%s is %s, not the %s of %s's parameters", what, describe(l, 0), field, host.Name())
+			if isFieldOfParam(l, field, host) {
+				continue
 			}
+			// a helper of selectLogs that receives the bound as a parameter: follow it to its call sites
+			if prm, ok := l.(*ssa.Parameter); ok && host != sl && host != ev && depth < 3 {
+				idx, sites := -1, 0
+				for i, hp := range host.Params {
+					if hp == prm {
+						idx = i
+					}
+				}
+				for _, gf := range grp {
+					for _, c := range callsIn(gf) {
+						if staticCallee(c) == host && idx >= 0 && idx < len(c.Common().Args) {
+							sites++
+							check(gf, what, c.Common().Args[idx], field, c.Pos(), depth+1)
+						}
+					}
+				}
+				if sites > 0 {
+					continue
+				}
+			}
+			good = false
+			o.Fail(r.pos(at), "%s is %s, not the %s of %s's parameters", what, describe(l, 0), field, host.Name())
 		}
 		n++
 	}
-	// selectLogs -> Querier.SelectLogs(ctx, start, end, params)
+	// selectLogs -> Querier.SelectLogs(ctx, start, end, params), possibly in a helper of selectLogs
 	found := false
-	for _, gf := range funcGroup(sl) {
-		if gf != sl {
+	for _, gf := range grp {
+		if pkgOfFunc(gf) != pkgOfFunc(sl) {
 			continue
 		}
 		for _, c := range callsIn(gf) {
@@ -146,8 +169,8 @@ func ruleLogBoundsVerbatim(r *Run) {
 				continue
 			}
 			found = true
-			check(sl, "the start given to the storage", cc.Args[1], "Start", c.Pos())
-			check(sl, "the end given to the storage", cc.Args[2], "End", c.Pos())
+			check(gf, "the start given to the storage", cc.Args[1], "Start", c.Pos(), 0)
+			check(gf, "the end given to the storage", cc.Args[2], "End", c.Pos(), 0)
 		}
 	}
 	if !found {
@@ -167,8 +190,8 @@ func ruleLogBoundsVerbatim(r *Run) {
 			return
 		}
 		found = true
-		check(ev, "Start of the log selection", fs["Start"], "Start", c.Pos())
-		check(ev, "End of the log selection", fs["End"], "End", c.Pos())
+		check(ev, "Start of the log selection", fs["Start"], "Start", c.Pos(), 0)
+		check(ev, "End of the log selection", fs["End"], "End", c.Pos(), 0)
 	}
 	if !found {
 		o.Undecide(r.pos(ev.Pos()), "no selectLogs call in evalLogExpr")
@@ -378,51 +401,6 @@ func ruleExtractorsWriteOnly(r *Run) {
 		if good {
 			o.OK("%d label set call(s), all Set/SetError", k).At(r.pos(fn.Pos()))
 		}
-	}
-}
-
-// ruleOrMatcherArgs (PV-ARGS): `a or b` shows b the same record as a: OrLabelMatcher.Process calls
-// both sides with its own (ts, line, set).
-func ruleOrMatcherArgs(r *Run) {
-	p := r.P
-	o := r.Ob("PV-ARGS", "logqlengine.(*OrLabelMatcher).Process sides", "both sides of `or` are evaluated on the line the matcher was given (a rejecting left side does not change what the right side sees)")
-	fn := p.Method(enginePkg, "OrLabelMatcher", "Process")
-	if fn == nil || len(fn.Params) != 4 {
-		o.Fail("-", "method not found")
-		return
-	}
-	good := true
-	n := 0
-	for _, c := range callsIn(fn) {
-		cc := c.Common()
-		if !cc.IsInvoke() || cc.Method.Name() != "Process" || len(cc.Args) != 3 {
-			continue
-		}
-		side, base, ok := loadOfField(cc.Value)
-		if !ok || originValue(base) != ssa.Value(fn.Params[0]) {
-			continue
-		}
-		n++
-		for i, a := range cc.Args {
-			leaves, impure := verbatimTrace(a)
-			bad := len(impure) > 0
-			for _, l := range leaves {
-				if l != ssa.Value(fn.Params[i+1]) {
-					bad = true
-				}
-			}
-			if bad {
-				good = false
-				o.Fail(r.pos(c.Pos()), "%s.Process gets %s as argument %d, not the matcher's own %s", side, describe(a, 0), i+1, fn.Params[i+1].Name())
-			}
-		}
-	}
-	if n < 2 {
-		o.Undecide(r.pos(fn.Pos()), "expected the Process calls of both sides, found %d", n)
-		return
-	}
-	if good {
-		o.OK("%d side call(s) with the matcher's own (ts, line, set)", n).At(r.pos(fn.Pos()))
 	}
 }
 
